@@ -103,6 +103,9 @@ def main(ck):
       lib.mj_step(m, d)
       if (i + 1) % every == 0:
         sample()
+      elif quat_springs and nsteps == NSTEP:     # coarsest run: watch the rotation-spring angle at every step
+        for (pa, ref) in quat_springs:
+          maxang[0] = max(maxang[0], kin.quat_dist(np.array(d.qpos[pa:pa + 4]), ref))
     if lib.warnings():
       return None
     Es = np.array(Es)
@@ -289,7 +292,7 @@ def main(ck):
     if not carve and max(r[3] for r in res) > 1e4:
       labels.append('illconditioned-along-trajectory')
       carve = True
-    if not carve and max(r[2] for r in res) > 2.6:
+    if not carve and max(r[2] for r in res) > 2.4:
       labels.append('carved:quat-spring-near-pi')
       carve = True
     regime = 'quat' if bool(np.any((jt == E.mjJNT_BALL) | (jt == E.mjJNT_FREE))) else 'hs'
@@ -301,7 +304,7 @@ def main(ck):
     if not carve:
       track('drift/scale@h', drift[0] / escale)
       # refinement must not make it worse (beyond round-off), whatever the regime
-      if drift[2] > max(drift[0], floor) * 1.5 + floor:
+      if drift[3] > max(drift[0], floor) * 3 + floor:
         raise Violation('energy drift grows under timestep refinement: %s (scale %.3g, h=%.3g)' % (drift, escale, h), bucket='energy-refinement')
       # use the finest pair of successive refinement ratios whose drifts are all above round-off
       lv = 1 if drift[3] > 30 * floor else 0
@@ -330,14 +333,14 @@ def main(ck):
         pdrift = [float(np.abs(p - p[0]).max()) for p in Ps]
         pscale_ = float(np.abs(Ps[2]).max()) + float(np.sum(np.array(m.body_mass)) * (np.abs(v0).max() + 1)) + 1e-300
         pfloor = 1e3 * EPS * pscale_ * np.sqrt(NSTEP * 4)
-        track('momentum-drift/scale', pdrift[2] / pscale_)
+        track('momentum-drift/scale', pdrift[3] / pscale_)
         sample['momentum_drift'] = pdrift
         labels.append('momentum-checked')
         # linear momentum is preserved exactly by RK methods, angular momentum only to the order of the quaternion
         # update (2nd): bound the fine-step drift loosely and require convergence
-        if pdrift[2] > 1e-4 * pscale_ + pfloor and drift[0] < 1e-3 * escale:
+        if pdrift[3] > 1e-4 * pscale_ + pfloor and drift[0] < 1e-3 * escale:
           raise Violation('momentum of free-floating tree(s) %s not conserved: sup drift %s (scale %.3g)' % (roots, pdrift, pscale_), bucket='momentum')
-        if pdrift[2] > max(pdrift[0], pfloor) * 1.5 + pfloor:
+        if pdrift[3] > max(pdrift[0], pfloor) * 3 + pfloor:
           raise Violation('momentum drift grows under refinement: %s' % pdrift, bucket='momentum-refinement')
     ck.case(nontrivial=nt, key=(gm.xml, seed), sample=sample, labels=labels)
 
